@@ -7,7 +7,7 @@ import SleapVerif.Model.Datasets
    (returned centroids, the input tensor after the call, `centroidOf` per instance)
 
 `ds <variant> <kind 0=bottomUp 1=single 2=centroid 3=centered> <userOnly> <maxH|-1> <maxW|-1> <cfgMaxH|-1> <cfgMaxW|-1>
-    <scale> <anchor|-1> <cropH> <cropW> <nFrames> {<frameIdx> <videoIdx> <H> <W> <nInst>
+    <scale> <anchor|-1> <cropH> <cropW> <apply_aug 0|1> <use_augmentations_train 0|1> <nFrames> {<frameIdx> <videoIdx> <H> <W> <nInst>
     {<kind 0=user 1=predicted> <nNodes> {<x> <y> <visible 0|1>}}} <seqLen> <i…>`
    → `ok len <n> idx <m> … reads <k> {s <nkeys> {<key> <npts> x y …} <num> <f> <v> <H> <W> | raise}
       spec <0|1>`   (`spec` = every read equals `specSample`, `len = specLen`, the built state satisfies `WFds` and caches exactly `specCache`)
@@ -76,9 +76,10 @@ def dsOp : P String := do
   let sc ← rat
   let a ← optNat
   let ch ← nat; let cw ← nat
+  let ap ← bool; let cf ← bool
   let fs ← listOf frameP
   let seq ← listOf nat
-  let cfg : Cfg Rat := ⟨kindOf kind, uo, mh, mw, cmh, cmw, sc, a, ch, cw⟩
+  let cfg : Cfg Rat := ⟨kindOf kind, uo, mh, mw, cmh, cmw, sc, a, ch, cw, ap, cf⟩
   let ds0 := build v cfg castQ fs
   let steps := cfg.steps castQ
   let (_, outs, specOk) := seq.foldl (fun (acc : DS Rat × List String × Bool) i =>
